@@ -198,6 +198,19 @@ claim(
     "DESIGN.md section 4, C14",
 )
 
+claim(
+    "C09",
+    "symbolic path enumeration of quantise_scale with a power-of-two bookkeeping domain (frexp model); finite-domain evaluation of the pooling divisor "
+    "expressions over every window size; widen-before-arithmetic rule on float32 scale expressions; sibling agreement of the add/sub derivations",
+    "Decides clauses a-c of DESIGN.md 4/C09: on every path of quantise_scale the 2^a carried by the multiplier equals the constant of the shift "
+    "(the pair denotes the input scale), the shift is guarded to [0, 64) and out-of-range scales give (0, 16); the reduced form divides multiplier and "
+    "shift by the same 2^16 and saturates; the pooling reciprocal is rounded up for all window sizes (1..2048 quick, 1..65536 thorough, three rescale "
+    "settings); doubles are taken of each float32 scale before dividing; advanced / simplified add-sub derivations and the operand swap agree. Does NOT "
+    "decide relative error or equality with TFLite for all real scales.",
+    "Trusted: math.frexp model (significand in [0.5, 1)); one deliberate float32 product frozen with the TFLite line it mirrors.",
+    "DESIGN.md section 4, C09",
+)
+
 
 def build():
     checks = []
